@@ -50,27 +50,12 @@ Theorem C07_insertion_sat : forall n sat subset,
 Proof. exact mus_insertion_sat. Qed.
 Print Assumptions C07_insertion_sat.
 
-(* REFUTED: MUSMaxSat is not minimal (D19), with the exhaustive oracle ... *)
-Theorem C07_maxsat_refuted :
-  exists n F S, ~ Satisfiable n F /\ mus_maxsat_ref n F = MusOk S /\ ~ is_mus n F S.
-Proof. exact mus_maxsat_ref_refuted. Qed.
-Print Assumptions C07_maxsat_refuted.
-
-(* ... and with any oracle that returns an optimum *)
-Theorem C07_maxsat_refuted_any_oracle : forall minrelax,
-  (forall hard soft,
-    match minrelax 2%nat hard soft with
-    | Some m => length m = 2%nat /\ sat_cnf m hard = true /\
-                forall m', length m' = 2%nat -> sat_cnf m' hard = true -> viol m soft <= viol m' soft
-    | None => ~ Satisfiable 2 hard
-    end) ->
-  ~ Satisfiable 2 [[1]; [-1]; [2]; [-2]] /\
-  exists S, mus_maxsat 2 minrelax [[1]; [-1]; [2]; [-2]] = MusOk S /\
-            ~ is_mus 2 [[1]; [-1]; [2]; [-2]] S.
-Proof. exact mus_maxsat_refuted_any_oracle. Qed.
-Print Assumptions C07_maxsat_refuted_any_oracle.
-
-Theorem C07_maxsat_partial : forall n minrelax,
+(* MUSMaxSat after the repair of D19 (commit 6770e40): the clauses gathered
+   by the MaxSat rounds are minimised by MUSDeletion. *)
+Theorem C07_maxsat : forall n sat subset minrelax,
+  (forall nv f, sat nv f = true <-> Satisfiable nv f) ->
+  (forall f, (~ Satisfiable n f -> exists s, subset f = Some s) /\
+             (forall s, subset f = Some s -> submultiset s f /\ ~ Satisfiable n s)) ->
   (forall hard soft,
     match minrelax n hard soft with
     | Some m => length m = n /\ sat_cnf m hard = true /\
@@ -78,20 +63,55 @@ Theorem C07_maxsat_partial : forall n minrelax,
     | None => ~ Satisfiable n hard
     end) ->
   forall F, ~ Satisfiable n F ->
-  exists S, mus_maxsat n minrelax F = MusOk S /\ submultiset S F /\ ~ Satisfiable n S.
-Proof. exact mus_maxsat_partial. Qed.
-Print Assumptions C07_maxsat_partial.
+  exists S, mus_maxsat n sat subset minrelax F = MusOk S /\ is_mus n F S.
+Proof. exact mus_maxsat_correct. Qed.
+Print Assumptions C07_maxsat.
 
-Theorem C07_maxsat_sat : forall n minrelax,
+Theorem C07_maxsat_sat : forall n sat subset minrelax,
   (forall hard soft,
     match minrelax n hard soft with
     | Some m => length m = n /\ sat_cnf m hard = true /\
                 forall m', length m' = n -> sat_cnf m' hard = true -> viol m soft <= viol m' soft
     | None => ~ Satisfiable n hard
     end) ->
-  forall F, Satisfiable n F -> mus_maxsat n minrelax F = MusErr.
+  forall F, Satisfiable n F -> mus_maxsat n sat subset minrelax F = MusErr.
 Proof. exact mus_maxsat_sat. Qed.
 Print Assumptions C07_maxsat_sat.
+
+(* Regression witnesses of the repaired defect: the algorithm as it was
+   ([mus_maxsat_old] = the gathering loop alone) is not minimal, with the
+   exhaustive oracle ... *)
+Theorem C07_maxsat_old_refuted :
+  exists n F S, ~ Satisfiable n F /\ mus_maxsat_old_ref n F = MusOk S /\ ~ is_mus n F S.
+Proof. exact mus_maxsat_old_ref_refuted. Qed.
+Print Assumptions C07_maxsat_old_refuted.
+
+(* ... and with any oracle that returns an optimum *)
+Theorem C07_maxsat_old_refuted_any_oracle : forall minrelax,
+  (forall hard soft,
+    match minrelax 2%nat hard soft with
+    | Some m => length m = 2%nat /\ sat_cnf m hard = true /\
+                forall m', length m' = 2%nat -> sat_cnf m' hard = true -> viol m soft <= viol m' soft
+    | None => ~ Satisfiable 2 hard
+    end) ->
+  ~ Satisfiable 2 [[1]; [-1]; [2]; [-2]] /\
+  exists S, mus_maxsat_old 2 minrelax [[1]; [-1]; [2]; [-2]] = MusOk S /\
+            ~ is_mus 2 [[1]; [-1]; [2]; [-2]] S.
+Proof. exact mus_maxsat_old_refuted_any_oracle. Qed.
+Print Assumptions C07_maxsat_old_refuted_any_oracle.
+
+(* what the old algorithm did guarantee *)
+Theorem C07_maxsat_old_partial : forall n minrelax,
+  (forall hard soft,
+    match minrelax n hard soft with
+    | Some m => length m = n /\ sat_cnf m hard = true /\
+                forall m', length m' = n -> sat_cnf m' hard = true -> viol m soft <= viol m' soft
+    | None => ~ Satisfiable n hard
+    end) ->
+  forall F, ~ Satisfiable n F ->
+  exists S, mus_maxsat_old n minrelax F = MusOk S /\ submultiset S F /\ ~ Satisfiable n S.
+Proof. exact mus_maxsat_old_partial. Qed.
+Print Assumptions C07_maxsat_old_partial.
 
 (* the contract assumed of [subset] is what C08 proves of UnsatSubset *)
 Theorem C07_subset_contract : forall n F ssat cert S,
@@ -112,10 +132,10 @@ Theorem C07_insertion_ref : forall n F, ~ Satisfiable n F ->
 Proof. exact mus_insertion_ref_correct. Qed.
 Print Assumptions C07_insertion_ref.
 
-Theorem C07_maxsat_ref_partial : forall n F, ~ Satisfiable n F ->
-  exists S, mus_maxsat_ref n F = MusOk S /\ submultiset S F /\ ~ Satisfiable n S.
-Proof. exact mus_maxsat_ref_partial. Qed.
-Print Assumptions C07_maxsat_ref_partial.
+Theorem C07_maxsat_ref : forall n F, ~ Satisfiable n F ->
+  exists S, mus_maxsat_ref n F = MusOk S /\ is_mus n F S.
+Proof. exact mus_maxsat_ref_correct. Qed.
+Print Assumptions C07_maxsat_ref.
 
 Theorem C07_ref_sat : forall n F, Satisfiable n F ->
   mus_deletion_ref n F = MusErr /\ mus_insertion_ref n F = MusErr /\ mus_maxsat_ref n F = MusErr.
@@ -133,13 +153,22 @@ Print Assumptions C07_is_musb.
 Example C07_ex_oracles :
   (forall nv f, sat_ref nv f = true <-> Satisfiable nv f) /\
   (forall n f, (~ Satisfiable n f -> exists s, subset_ref n f = Some s) /\
-               (forall s, subset_ref n f = Some s -> submultiset s f /\ ~ Satisfiable n s)).
-Proof. exact (conj sat_ref_ok subset_ref_ok). Qed.
+               (forall s, subset_ref n f = Some s -> submultiset s f /\ ~ Satisfiable n s)) /\
+  (forall n hard soft,
+    match minrelax_ref n hard soft with
+    | Some m => length m = n /\ sat_cnf m hard = true /\
+                forall m', length m' = n -> sat_cnf m' hard = true -> viol m soft <= viol m' soft
+    | None => ~ Satisfiable n hard
+    end).
+Proof. exact (conj sat_ref_ok (conj subset_ref_ok minrelax_ref_ok)). Qed.
 
 Example C07_ex_d19 :
   mus_deletion_ref 5 F_d19 = MusOk [[-3]; [3]] /\
   mus_deletion_relax_ref 5 F_d19 = MusOk [[-3]; [3]] /\
   mus_insertion_ref 5 F_d19 = MusOk [[3]; [2; -5]; [-2; -3]; [5]] /\
-  mus_maxsat_ref 5 F_d19 = MusOk [[3]; [5]; [-3]] /\
-  is_musb 5 F_d19 [[3]; [5]; [-3]] = false.
+  mus_maxsat_old_ref 5 F_d19 = MusOk [[3]; [5]; [-3]] /\
+  is_musb 5 F_d19 [[3]; [5]; [-3]] = false /\
+  mus_maxsat_ref 5 F_d19 = MusOk [[3]; [-3]] /\
+  is_musb 5 F_d19 [[3]; [-3]] = true /\
+  mus_maxsat_ref 2 F_two_cores = MusOk [[2]; [-2]].
 Proof. vm_compute. repeat split. Qed.
